@@ -196,6 +196,8 @@ def effects(lines_by_tree, scen):
                 eff["enter-after-kill"] += 1
             if ev == "Exit":
                 eff["exit-" + a["kind"]] += 1
+            if ev == "BadSignal":
+                eff["refused-signal-" + a["sig"]] += 1
             if ev == "SawCancel" and not killed:
                 eff["cancel-observed-before-kill"] += 1
             for dn, v in s.items():
@@ -251,12 +253,17 @@ def run(prop, tier, replay=None):
         tlc_scs = fs.tlc_scenarios(work, ntlc, seed)
         # vacuity guard for the model: the simulated behaviours exercise every kind of service step, restarts and the kill
         model_events = Counter(x for sc in tlc_scs for x in sc.pop("model_events"))
-        model_events["Fault"] = sum(model_events["Exit:" + k] for k in fs.FAULTS)
+        model_events["Fault"] = sum(model_events["Exit:" + k] for k in fs.FAULTS + ["badhealthy", "baddone"])
         for need in ("Enter", "Restart", "Healthy", "Done", "SawCancel", "Fault", "Exit:ctxErr", "Kill"):
             if model_events[need] == 0:
                 raise vlib.Broken("vacuous model simulation: no %s in %d TLC behaviours" % (need, len(tlc_scs)))
         scs = fs.fixed_scenarios() + fs.orphan_scenarios() + fs.linger_scenarios(seed, LINGER[tier]) + fs.done_linger_sibling_scenarios(seed, LINGER[tier]) + fs.simultaneous_scenarios(seed, 2 * LINGER[tier]) + tlc_scs + fs.gen_scenarios(seed, ngen)
-        batches = [("main", [s for s in scs if not fs.risky(s)]), ("risky", [s for s in scs if fs.risky(s)]),
+        scs += fs.badsignal_scenarios()
+        # scenarios with lifecycle mistakes run in a process of their own: a supervisor that keeps its lock after the
+        # refused signal wedges everything that shares the process
+        bad = [s for s in scs if fs.has_badsignal(s)]
+        scs = [s for s in scs if not fs.has_badsignal(s)]
+        batches = [("main", [s for s in scs if not fs.risky(s)]), ("risky", [s for s in scs if fs.risky(s)]), ("badsig", bad),
                    ("race", fs.done_race_scenarios(nrace))]
     nid = 0
     allsc = {}
@@ -303,6 +310,22 @@ def run(prop, tier, replay=None):
                 verdict.add(sig, {"report": blk, "batch": name})
             if completed:
                 todo = []
+                break
+            lk = re.search(r"VERIF-SUPERVISOR-LOCKLEAK tree=(\d+) dn=(\S+) sig=(\S+) panicked=(\S+) dump=(\S+)", out)
+            if lk:
+                dump = ""
+                try:
+                    dump = open(lk.group(5)).read()
+                except OSError:
+                    pass
+                blocked = re.findall(r"\[sync\.(?:RW)?Mutex\.R?Lock[^\]]*\]:\n(?:.*\n)*?\S*pkg/supervisor\.(?:\(\*\w+\)\.)?(\w+)\(", dump)
+                verdict.add("lock-leak/Signal-%s/supervisor-lock-still-held-after-refused-signal" % lk.group(3),
+                            {"batch": name, "tree": int(lk.group(1)), "dn": lk.group(2), "panicked": lk.group(4),
+                             "scenario": allsc.get(int(lk.group(1))), "waiting_for_the_lock": sorted(set(blocked))[:8],
+                             "why": "supervisor.Signal refused the signal but the tree lock could not be read-locked for 3 s afterwards: "
+                                    "the processor can record no death, restart nothing and cannot even cancel the tree",
+                             "dump_excerpt": dump[:6000]})
+                crashes += 1
                 break
             hg = parse_hang(out)
             if hg:
@@ -385,7 +408,7 @@ def run(prop, tier, replay=None):
         prev = {}
         for ln in ls:
             acts[ln["ev"]] += 1
-            if ln["ev"] in ("Enter", "RunGroup", "Healthy", "Done", "SawCancel", "Exit"):
+            if ln["ev"] in ("Enter", "RunGroup", "Healthy", "Done", "SawCancel", "Exit", "BadSignal"):
                 classes.add(pre_class(prev, ln))
             prev = ln.get("s", {})
     eff = effects(by_tree, allsc)
@@ -409,7 +432,7 @@ def run(prop, tier, replay=None):
         "transitions": mc_trans if not replay else max(r["generated"], 1),
         "traces_validated_against_impl": len(t_ok),
         "samples": [{"scenario": {k: anysc[k] for k in ("shape", "scripts", "killAfter", "src")}}, {"trace_prefix": sample_trace}],
-        "evaluations": sum(acts[e] for e in ("Enter", "RunGroup", "Healthy", "Done", "SawCancel", "Exit", "Kill", "ObsKilled")),
+        "evaluations": sum(acts[e] for e in ("Enter", "RunGroup", "Healthy", "Done", "SawCancel", "Exit", "BadSignal", "Kill", "ObsKilled")),
         "distinct_nontrivial": len(classes),
         "rule": "one evaluation = one logged service-side step of a real tree (with its snapshot of the supervisor's tree) that TLC explained "
                 "with Supervisor.tla; distinct = distinct (step kind, node depth, node state and context liveness before the step, exit kind, "
